@@ -234,6 +234,14 @@ PostLookup(i) ==             \* the upload POST is issued as soon as the forward
   /\ plook' = [plook EXCEPT ![i] = IF pending[i] = None THEN "nf" ELSE pending[i]]
   /\ UNCHANGED <<pc, idOf, pending, ps, batch, agent, cur, seen, w, wreq, wresp, inflight, delivered, calls, handed, faults, hit>>
 
+PostAborted(i) ==            \* an upload attempt of this request reached the proxy and died before its response head was
+  /\ plook[i] # None /\ wreq[i] \in Victims   \* complete: the handler returns, the waiter keeps waiting, and the
+  /\ w[i] \in {"forward", "backend", "retry", "upload"}   \* agent's next attempt looks the waiter up again
+  /\ faults < MaxFaults
+  /\ faults' = faults + 1 /\ hit' = hit \cup {wreq[i]}
+  /\ plook' = [plook EXCEPT ![i] = None]
+  /\ UNCHANGED <<pc, idOf, pending, ps, batch, agent, cur, seen, w, wreq, wresp, inflight, delivered, calls, handed>>
+
 Handoff(i) ==                \* handleAgentPostResponse: response head parsed, respChan rendezvous
   /\ w[i] = "upload"
   /\ plook[i] \notin {None, "nf"}
@@ -272,7 +280,7 @@ Next ==
   \/ AgentDedupStep
   \/ \E i \in IdPool : WFetch(i) \/ WFetchFault(i) \/ WForward(i) \/ BackendDown(i)
                        \/ BackendReply(i) \/ BackendBreaks(i) \/ TransportRetry(i) \/ Resend(i)
-                       \/ PostLookup(i) \/ Handoff(i)
+                       \/ PostLookup(i) \/ PostAborted(i) \/ Handoff(i)
                        \/ PostOrphan(i) \/ PostFault(i)
 
 Fair ==
